@@ -11,8 +11,10 @@
    verify_full i       = process_signature (f_level i) (scenario_of i).
    Anchored / Identity_matches / Not_expired / Timestamp_ok / Unrevoked
                        the declarative statements the sub-properties prove of a passing validation.
-   contracts i         the validator answers one result per certificate (C05) and every trust
-                       store value has a separator (C06's wf). *)
+   contracts i         every trust store value has a separator (C06's wf). That the validator
+                       answers one result per certificate is NOT assumed any more: since fix d78db00
+                       the code checks it (checkRevocationResults, mirrored in C05's model), and
+                       [Unrevoked] says so. *)
 From NV Require Import Base Regex Generated C02_Levels VerifyCore C02_Model C02_Core C02_Proofs C02_Compose.
 From NV Require C03_Model C04_DN C04_Model C05_Model C06_Model.
 Open Scope string_scope.
@@ -37,6 +39,42 @@ Theorem C02_full_reject_strict : forall i,
   accepted (verify_full i) = false.
 Proof. exact full_reject_strict. Qed.
 Print Assumptions C02_full_reject_strict.
+
+(* the native revocation fact handed to processSignature, for every validator answer: the validation
+   passes iff the validator answered with exactly one result per certificate, each OK or non-revokable
+   (a validator error, a result too few or too many, a revoked or unknown certificate all fail it) *)
+Theorem C02_full_revocation_fact : forall i,
+  s_rev_ok (scenario_of i) = true <-> Unrevoked i.
+Proof. exact rev_passes_iff. Qed.
+Print Assumptions C02_full_revocation_fact.
+
+(* EVERY enforcement map (the 24 reachable ones included), no plugin demanded: the signature is accepted
+   exactly when it is intact, every validation the map ENFORCES holds in the declarative sense of its own
+   property (C04 identities, C06 expiry / authentic timestamp, C05 revocation: iff; C03 authenticity: the
+   class computed by C03's model, which implies the anchoring), and there is no critical extended attribute.
+   Validations whose action is log or skip do not occur in the condition at all.
+     Enforced_ok i := (l_auth = Enforce -> auth_class i = APass /\ Identity_matches i) /\ (l_exp = Enforce -> Not_expired i)
+                      /\ (l_ts = Enforce -> Timestamp_ok i) /\ (l_rev = Enforce -> Unrevoked i)
+     No_critical i := no integer-labelled critical attribute, no critical string-keyed one, no critical
+                      minimum-version header *)
+Theorem C02_full_accept_iff : forall i, f_plugin_attr i = AAbsent -> contracts i ->
+  (accepted (verify_full i) = true <-> f_integrity_ok i = true /\ Enforced_ok i /\ No_critical i).
+Proof. exact full_accept_iff. Qed.
+Print Assumptions C02_full_accept_iff.
+
+Theorem C02_full_auth_class_anchored : forall i, auth_class i = C03_Model.APass -> Anchored i.
+Proof. exact auth_class_pass_anchored. Qed.
+Print Assumptions C02_full_auth_class_anchored.
+
+(* hence, whatever the map: an enforced validation that does not hold rejects *)
+Theorem C02_full_reject_any_level : forall i, f_plugin_attr i = AAbsent -> contracts i ->
+  (l_auth (f_level i) = Enforce /\ (~ Anchored i \/ ~ Identity_matches i))
+  \/ (l_exp (f_level i) = Enforce /\ ~ Not_expired i)
+  \/ (l_ts (f_level i) = Enforce /\ ~ Timestamp_ok i)
+  \/ (l_rev (f_level i) = Enforce /\ ~ Unrevoked i) ->
+  accepted (verify_full i) = false.
+Proof. exact full_reject_any_level. Qed.
+Print Assumptions C02_full_reject_any_level.
 
 (* strict_level / audit_level are what GetVerificationLevel gives for "strict" / "audit" *)
 Theorem C02_full_levels : level_for "strict" [] = Some strict_level /\ level_for "audit" [] = Some audit_level.
@@ -84,6 +122,35 @@ Definition ex_bad (l : level) : full_input :=
           [(("signingAuthority", "s"), C03_Model.Certs [7%N]); (("ca", "empty"), C03_Model.Certs [9%N])]
           (C05_Model.VRes [C05_Model.RRevoked; C05_Model.ROK])
           2000 (-10) (Some 100%Z) C06_Model.OptUnset [] ex_tok AAbsent AAbsent false [] false PMNil PErr.
+
+(* the good input, but the validator reports two results for... one certificate too many / too few *)
+Definition ex_short (l : level) : full_input :=
+  mk_full l false true ex_chain ["ca:s"] ["x509.subject: C=US, ST=WA, O=Verif"]
+          [(("ca", "s"), C03_Model.Certs [7%N])] (C05_Model.VRes [C05_Model.ROK])
+          0 (-10) None C06_Model.OptUnset [] ex_tok AAbsent AAbsent false [] false PMNil PErr.
+
+Example C02_full_example_validator_answer_incomplete :
+  o_err (verify_full (ex_short strict_level)) = EResult TRev
+  /\ verify_full (ex_short audit_level)
+  = mk_obs ENone [mk_res TIntegrity Enforce false; mk_res TAuth Log false; mk_res TExpiry Log false;
+                  mk_res TTimestamp Log false; mk_res TRev Log true] true [] None.
+Proof. repeat split; vm_compute; reflexivity. Qed.
+
+(* a customised map: permissive with expiry enforced. The bad input (unanchored, foreign identity, expired,
+   revoked) under a map that enforces only expiry and revocation... *)
+Example C02_full_example_custom_level :
+  let lvl := mk_level Log Log Enforce Log in
+  level_for "audit" [("expiry", "enforce")] = Some lvl
+  /\ contracts (ex_bad lvl) /\ f_plugin_attr (ex_bad lvl) = AAbsent
+  /\ o_err (verify_full (ex_bad lvl)) = EResult TExpiry
+  /\ accepted (verify_full (ex_good lvl)) = true
+  /\ Enforced_ok (ex_good lvl).
+Proof.
+  cbv zeta. split; [vm_compute; reflexivity|]. split; [vm_compute; reflexivity|]. split; [reflexivity|].
+  split; [vm_compute; reflexivity|]. split; [vm_compute; reflexivity|].
+  unfold Enforced_ok. cbn [f_level ex_good l_auth l_exp l_ts l_rev].
+  split; [discriminate|]. split; [intros _; left; reflexivity|]. split; discriminate.
+Qed.
 
 Example C02_full_example :
   verify_full (ex_good strict_level)
